@@ -1480,6 +1480,8 @@ class Engine:
             return None
         st.mem.update(rets[0].mem)
         st.pc = rets[0].pc
+        if rets[0].env.get('havoc'):
+            st.env['havoc'] = rets[0].env['havoc']      # taint from callees havocked on the side stays with the path
         return rets[0].ret
 
     def call_sub_states(self, st, fn, args):
@@ -1518,12 +1520,18 @@ class Engine:
         finals = self.run(sub)
         self.stats['paths'] = saved_paths
         terms = []
+        taint = st.env.get('havoc', ())
         for f in finals:
             if f.status != 'returned' or not isinstance(f.ret, Bool):
                 return None
             terms.append(z3.And(list(f.pc[base:]) + [f.ret.t]))
+            for h in f.env.get('havoc', ()):
+                if h not in taint:
+                    taint = taint + (h,)
         if not terms:
             return None
+        if taint:
+            st.env['havoc'] = taint                       # the merged verdict depends on whatever was havocked on any side path
         return Bool(simp(z3.Or(terms)))
 
     def call_fn(self, st, fn, args, tybind=None):
